@@ -1,9 +1,230 @@
-/- C20 driver: not written yet -/
+/-
+  C20 driver: replays what the real library did (harness/progress.cpp, digested by
+  tools/checks/c20.py) through the model of LibfiveModel/Progress.lean.
+
+  input (one token list per line):
+    case <id> N <N> L <L> workers <w>
+    shape <prefix tokens>        L | T | B <k> <children…>      build-time shape from the pool events
+    ticks <n> {<count> <level> <kind>}*   kind: 0 collected branch, 1 terminal, 2 leaf
+    build <total> <counter>
+    final <prefix tokens>        c | s | b <k> <children…>      tree seen by the dual walk (may be empty)
+    walk <nticks> <total> <counter>
+    pools <n> {<clamped workers> <allocated> <fresh>}*
+    reset <announced> <nticks> <total> <counter>
+    snap <cur> {<weight> <total> <counter>}*     state samples in time order
+    life <id> <ops…> | <observed finish flags…>
+    end
+-/
 import Driver.Parse
+import LibfiveModel.Progress
+open Libfive.Progress
 
 namespace Driver.C20
 
+partial def parseShape : List String → Option (Shape × List String)
+  | "L" :: r => some (.leaf, r)
+  | "T" :: r => some (.terminal, r)
+  | "B" :: k :: r =>
+    let rec go (n : Nat) (r : List String) (acc : List Shape) : Option (List Shape × List String) :=
+      match n with
+      | 0 => some (acc.reverse, r)
+      | n + 1 => match parseShape r with
+        | some (s, r') => go n r' (s :: acc)
+        | none => none
+    match go (nat! k) r [] with
+    | some (cs, r') => some (.branch cs, r')
+    | none => none
+  | _ => none
+
+partial def parseFinal : List String → Option (Final × List String)
+  | "c" :: r => some (.cell, r)
+  | "s" :: r => some (.singleton, r)
+  | "b" :: k :: r =>
+    let rec go (n : Nat) (r : List String) (acc : List Final) : Option (List Final × List String) :=
+      match n with
+      | 0 => some (acc.reverse, r)
+      | n + 1 => match parseFinal r with
+        | some (s, r') => go n r' (s :: acc)
+        | none => none
+    match go (nat! k) r [] with
+    | some (cs, r') => some (.branch cs, r')
+    | none => none
+  | _ => none
+
+mutual
+/-- strict twin of `tickEvents` of LibfiveProofs (kept here so that the driver stays Mathlib-free):
+    multiset of tick counts the model expects, as (count, level, kind) -/
+partial def expectTicks (N : Nat) (l : Nat) : Shape → List (Nat × Nat × Nat)
+  | .leaf => [(1, l, 2)]
+  | .terminal => [(announced N l, l, 1)]
+  | .branch cs => (1, l, 0) :: expectTicksList N (l - 1) cs
+partial def expectTicksList (N : Nat) (l : Nat) : List Shape → List (Nat × Nat × Nat)
+  | [] => []
+  | c :: cs => expectTicks N l c ++ expectTicksList N l cs
+end
+
+def tripleLt (a b : Nat × Nat × Nat) : Bool :=
+  a.1 < b.1 || (a.1 == b.1 && (a.2.1 < b.2.1 || (a.2.1 == b.2.1 && a.2.2 < b.2.2)))
+
+def sortTriples (l : List (Nat × Nat × Nat)) : Array (Nat × Nat × Nat) :=
+  l.toArray.qsort tripleLt
+
+def triples : List String → List (Nat × Nat × Nat)
+  | a :: b :: c :: r => (nat! a, nat! b, nat! c) :: triples r
+  | _ => []
+
+instance : NatCast Float32 := ⟨Float32.ofNat⟩
+
+structure Snap where
+  cur : Nat
+  ps : Array Phase
+
+def Snap.fn (s : Snap) : Nat → Phase := fun i => s.ps.getD i ⟨0, 0, 0⟩
+
+def Snap.frac (s : Snap) : Float32 := fraction (K := Float32) s.fn s.ps.size s.cur
+
+structure St where
+  id : String := "?"
+  N : Nat := 3
+  L : Nat := 0
+  workers : Nat := 1
+  shape : Option Shape := none
+  prev : Option Snap := none
+  snaps : Nat := 0
+  snapBad : Option String := none
+  walkModel : Option (Nat × Nat) := none          -- (ticks, announced)
+  resetModel : Option (Nat × Nat × Bool) := none  -- (ticks, blocks, resetGood)
+  out : Array String := #[]
+
+def St.say (s : St) (ok : Bool) (what : String) (detail : String := "") : St :=
+  { s with out := s.out.push (if ok then s!"ok case {s.id} {what}" else s!"MISMATCH case {s.id} {what} {detail}") }
+
+/-- hypotheses of `progress_monotone` between consecutive samples, and its conclusion on Float32 -/
+def checkSnap (p q : Snap) : Option String :=
+  if q.cur < p.cur then some s!"current phase went back {p.cur}->{q.cur}"
+  else
+    let bad := (List.range (p.cur + 1)).find? fun i =>
+      let a := p.fn i; let b := q.fn i
+      !(a.weight == b.weight && (a.total == 0 || (a.total == b.total && a.counter ≤ b.counter)))
+    match bad with
+    | some i => some s!"phase {i} counter/total not monotone"
+    | none =>
+      match (List.range (q.cur + 1)).find? fun i => (q.fn i).total < (q.fn i).counter with
+      | some i => some s!"phase {i} counter {(q.fn i).counter} exceeds total {(q.fn i).total}"
+      | none =>
+        let fp := p.frac; let fq := q.frac
+        if fq < fp then some s!"model fraction decreased {fp} -> {fq}"
+        else if fq < 0 || fq > 1 then some s!"model fraction {fq} outside [0,1]"
+        else none
+
+def lifeOp : String → Option Libfive.Progress.Handler → Option Libfive.Progress.Handler
+  | _, none => none
+  | op, some h =>
+    if op.startsWith "next" then some (h.nextPhase.runnerStep false)
+    else if op == "finish" then some h.finish
+    else if op == "destroy" then some h.finish.finish
+    else some h
+
+def handle (s : St) (line : String) : St :=
+  match words line with
+  | ["case", id, "N", n, "L", l, "workers", w] =>
+    { s with id := id, N := nat! n, L := nat! l, workers := nat! w, shape := none, prev := none,
+             snaps := 0, snapBad := none, walkModel := none, resetModel := none }
+  | "shape" :: toks =>
+    match parseShape toks with
+    | some (sh, []) =>
+      let s := { s with shape := some sh }
+      let s := s.say (wf s.N s.L sh) "shape-wf" s!"level {s.L}"
+      s.say (ticks s.N s.L sh == announced s.N s.L) "model-ticks-eq-total"
+    | _ => s.say false "shape-parse" (String.intercalate " " (toks.take 20))
+  | "ticks" :: _ :: toks =>
+    match s.shape with
+    | none => s.say false "ticks-without-shape"
+    | some sh =>
+      let real := sortTriples (triples toks)
+      let model := sortTriples (expectTicks s.N s.L sh)
+      let s := s.say (real == model) "tick-events"
+        s!"real {real.size} model {model.size} first-real {real.toList.take 3} first-model {model.toList.take 3}"
+      let sum := (triples toks).foldl (fun a t => a + t.1) 0
+      s.say (sum == announced s.N s.L) "tick-sum" s!"sum {sum} announced {announced s.N s.L}"
+  | ["build", total, counter] =>
+    let s := s.say (nat! total == announced s.N s.L) "build-total" s!"real {total} model {announced s.N s.L}"
+    match s.shape with
+    | some sh => s.say (nat! counter == ticks s.N s.L sh) "build-counter" s!"real {counter} model {ticks s.N s.L sh}"
+    | none => s
+  | "final" :: toks =>
+    if toks.isEmpty then s else
+    match parseFinal toks with
+    | some (f, []) =>
+      let s := s.say (walkable s.N f && !f.isSingleton) "final-walkable"
+      { s with walkModel := some (walkTicks f, walkAnnounced f) }
+    | _ => s.say false "final-parse"
+  | ["walk", nt, total, counter] =>
+    match s.walkModel with
+    | none => s.say false "walk-without-final"
+    | some (mticks, mann) =>
+      let s := s.say (nat! total == mann) "walk-total" s!"real {total} model {mann}"
+      let s := s.say (nat! nt == mticks) "walk-tick-events" s!"real {nt} model {mticks}"
+      s.say (nat! counter == mticks) "walk-counter" s!"real {counter} model {mticks}"
+  | "pools" :: _ :: toks =>
+    let ts := triples toks
+    let ps : List PoolBlocks := ts.map fun t => ⟨t.2.1, t.2.2⟩
+    -- per level clamp
+    let rec chk (w : Nat) (ts : List (Nat × Nat × Nat)) : Bool :=
+      match ts with
+      | [] => true
+      | t :: r => clamp w ⟨t.2.1, t.2.2⟩ == t.1 && chk t.1 r
+    let s := s.say (chk s.workers ts) "reset-clamp" s!"{ts}"
+    let s := s.say (resetTicksFixed s.workers ps == numBlocks ps) "reset-repaired-model"
+    { s with resetModel := some (resetTicks s.workers ps, numBlocks ps, resetGood ps) }
+  | ["reset", ann, nt, total, counter] =>
+    match s.resetModel with
+    | none => s.say false "reset-without-pools"
+    | some (mticks, mblocks, good) =>
+      let s := s.say (nat! ann == mblocks && nat! total == mblocks) "reset-total" s!"real {ann}/{total} model {mblocks}"
+      let s := s.say (nat! nt == mticks) "reset-tick-events" s!"real {nt} model {mticks}"
+      let s := s.say (nat! counter == mticks) "reset-counter" s!"real {counter} model {mticks}"
+      -- instance of reset_ticks: complete iff resetGood
+      let s := s.say ((mticks == mblocks) == good) "reset-theorem-instance"
+      if nat! counter != nat! total then
+        { s with out := s.out.push s!"agree-defect case {s.id} reset counter {counter} total {total} good {good}" }
+      else s
+  | "snap" :: cur :: toks =>
+    let q : Snap := ⟨nat! cur, (triples toks).toArray.map fun t => ⟨t.1, t.2.1, t.2.2⟩⟩
+    let s := { s with snaps := s.snaps + 1 }
+    match s.prev with
+    | none => { s with prev := some q }
+    | some p =>
+      match s.snapBad, checkSnap p q with
+      | none, some e => { s with prev := some q, snapBad := some e }
+      | _, _ => { s with prev := some q }
+  | ["end"] =>
+    match s.snapBad with
+    | some e => s.say false "snapshots" e
+    | none => s.say true s!"snapshots {s.snaps}"
+  | "life" :: id :: rest =>
+    -- ops … | observed `future.valid()` at each finish, in order
+    let ops := rest.takeWhile (· != "|")
+    let obs := (rest.dropWhile (· != "|")).drop 1
+    let rec go (h : Libfive.Progress.Handler) (ops : List String) (acc : List String) : List String × Libfive.Progress.Handler :=
+      match ops with
+      | [] => (acc.reverse, h)
+      | op :: r =>
+        -- `destroy` = the recording subclass's destructor calls finish(), then ~ProgressHandler does
+        let fl := if h.futureValid then "1" else "0"
+        let acc := if op == "finish" then fl :: acc else if op == "destroy" then fl :: fl :: acc else acc
+        match lifeOp op (some h) with
+        | some h' => go h' r acc
+        | none => go h r acc
+    -- a handler that is not destroyed explicitly is destroyed at scope exit
+    let ops' := if ops.contains "destroy" then ops.takeWhile (· != "destroy") ++ ["destroy"] else ops ++ ["destroy"]
+    let (pred, h) := go {} ops' []
+    let s := { s with id := "life-" ++ id }
+    let s := s.say (pred == obs) "finish-valid-flags" s!"model {pred} real {obs}"
+    s.say (h.canReturn) "finish-can-return"
+  | _ => s
+
 def run (_args : List String) (lines : Array String) : Array String :=
-  #[s!"MISMATCH driver-not-implemented {lines.size}"]
+  (lines.foldl handle {}).out
 
 end Driver.C20
